@@ -70,6 +70,9 @@ def replay_cases(chk, exe, cases):
     for c in cases:
         outmap = {(p, tuple(pa)): o for p, pa, o in c["invoked"]}
         text, ids = case_line(c["chain"], outmap)
+        # a policy that already carries a fallback is also verified through KSI_Policy_clone of its head: a clone is the same policy (rules AND fallback)
+        if len(c["chain"]) > 1 and (len(lines) % 2):
+            text = "CLONE " + text
         lines.append(text); metas.append(ids)
     rc, out, err = vlib.run_driver(exe, input="\n".join(lines) + "\n", timeout=1200)
     outs = [l for l in out.splitlines() if l.startswith("R ")]
@@ -124,6 +127,8 @@ def random_traces(chk, exe, rng, n, depth, width):
         text, ids = case_line(chain, outmap)
         if len(ids) > 250:
             continue
+        if len(chain) > 1 and rng.random() < 0.4:
+            text = "CLONE " + text
         lines.append(text); metas.append((ids, outmap)); chains.append(chain)
     rc, out, err = vlib.run_driver(exe, input="\n".join(lines) + "\n", timeout=600)
     outs = [l for l in out.splitlines() if l.startswith("R ")]
